@@ -1,4 +1,5 @@
 import UtilModel.Core.LTSHash
+import UtilModel.Core.LTSComplete
 import UtilModel.Promise.SimLive
 import UtilModel.Promise.SimSet
 import UtilModel.Promise.SimCur
@@ -25,4 +26,67 @@ theorem C11_accepted (cap fuel : Nat) (h : List Promise.Obs)
    acceptedH_satisfies Promise.model (fun h => Promise.monC11live.accepts h = true)
       Promise.C11live_obs cap fuel h ha⟩
 
+/-! ## completeness of the candidate lists: a REJECT is about the model -/
+
+theorem Promise.mem_internalCands (n t : Nat) (e : Promise.Ev) (ht : t < n)
+    (he : e ∈ [Promise.Ev.swap t, .publish t, .awSel t .ctx, .awSel t .usr, .awSel t .res, .cWCS t, .cSample t,
+     .cNilSel t .ctx, .cNilSel t .usr, .cNilSel t .wait,
+     .cInnerSel t .ctx, .cInnerSel t .wait, .cInnerSel t .res, .cChk1 t, .cChk2 t]) :
+    e ∈ Promise.internalCands n := by
+  unfold Promise.internalCands
+  exact List.mem_flatMap.mpr ⟨t, List.mem_range.mpr ht, he⟩
+
+theorem Promise.lt_of_getElem? {α} (l : List α) (t : Nat) (a : α) (h : l[t]? = some a) : t < l.length := by
+  exact (List.getElem?_eq_some_iff.mp h).1
+
+theorem complete_promise : Promise.model.Complete := by
+  refine ⟨?_, ?_⟩
+  · intro s e s' hs ho
+    show e ∈ Promise.internalCands s.th.length
+    change Promise.step s e = some s' at hs
+    change e.obs = none at ho
+    cases e <;> simp [Promise.Ev.obs] at ho <;> simp only [Promise.step] at hs
+    case awSel t br =>
+      split at hs <;> try simp at hs
+      rename_i th hth
+      have hlt := Promise.lt_of_getElem? _ _ _ hth
+      cases br
+      all_goals
+        first
+          | (refine Promise.mem_internalCands _ _ _ hlt ?_; simp; done)
+          | (split at hs <;> simp at hs)
+    case cNilSel t br =>
+      split at hs <;> try simp at hs
+      rename_i th hth
+      have hlt := Promise.lt_of_getElem? _ _ _ hth
+      cases br
+      all_goals
+        first
+          | (refine Promise.mem_internalCands _ _ _ hlt ?_; simp; done)
+          | (split at hs <;> simp at hs)
+    case cInnerSel t br =>
+      split at hs <;> try simp at hs
+      rename_i th hth
+      have hlt := Promise.lt_of_getElem? _ _ _ hth
+      cases br
+      all_goals
+        first
+          | (refine Promise.mem_internalCands _ _ _ hlt ?_; simp; done)
+          | (split at hs <;> simp at hs)
+    all_goals
+      split at hs <;> try simp at hs
+      rename_i th hth
+      have hlt := Promise.lt_of_getElem? _ _ _ hth
+      refine Promise.mem_internalCands _ _ _ hlt ?_
+      simp
+  · intro s e s' o hs ho
+    show e ∈ o.evs
+    change e.obs = some o at ho
+    cases e <;> simp [Promise.Ev.obs] at ho <;> subst ho <;> simp [Promise.Obs.evs]
+
+theorem reject_sound_promise (cap fuel : Nat) (h : List Promise.Obs) (i : Nat)
+    (hfail : (Promise.model.accRunH cap fuel [Promise.model.init] h 0 false 1).failedAt = some i)
+    (htr : (Promise.model.accRunH cap fuel [Promise.model.init] h 0 false 1).truncated = false) :
+    ¬ ∃ es s, Promise.model.run Promise.model.init es = some s ∧ es.filterMap Promise.model.obs = h :=
+  rejectH_sound Promise.model complete_promise cap fuel h i hfail htr
 end UtilModel
